@@ -772,6 +772,11 @@ def find_unique_graphs(
     :rtype: `dict`[`str`, `set`[`str`]]
     """
     time_window = get_time_window(time_buffer, sql_data_holder)
+    # hashes are recomputed on every call: rows of an earlier run on the same
+    # (persisted) store would clash with the ones inserted below
+    with sql_data_holder.session as session:
+        session.execute(sa.delete(JobHash))
+        session.commit()
     temp_table = create_temp_table_of_root_nodes_in_time_window(
         time_window, sql_data_holder
     )
